@@ -56,6 +56,7 @@ def subspaces(tier):
     for comp in (["dominated_operations", "non_idle_machines"], ["non_immediate_operations", "non_idle_machines"], ["non_immediate_machines"]):
         out += C.structure_subspaces(s3 + [(2, 2)], 2, False, canonical=True, filter=comp, shared=True)
     out += C.wide_subspaces(filter="none")
+    out += C.tall_subspaces(filter="none") + C.tall_subspaces(filter=["dominated_operations", "non_idle_machines"], shapes=((7, 3),))
     out += C.wide_subspaces(filter=["dominated_operations", "non_idle_machines"])
     out += C.wide_subspaces(filter="none", observed="atj", pairs=((1, 8),))
     for g in ("atj", "disj"):
